@@ -142,7 +142,7 @@ func checkDecoderVariant(v *tmpl.Variant, m *decoderModel, stream bool) []string
 }
 
 func checkC05(c *core.Ctx, l *core.Ledger) {
-	l.Explanation = "Static clauses of C05, evaluated on every feasible shape class (abstract expansion) of the two struct decoder templates (FromWire, Decode): each field arm is selected by the field's own id AND by the wire type of its declared type; unknown ids and mistyped fields fall to a default that skips with the header's own type (stream path) or are ignored (value path); after every arm the field is ended and the next header read; a required field's presence flag is set only inside its guarded arm; after the loop an error is returned iff a required field without default is unset, an unset defaulted field is assigned its default, union arity is checked last, and no other failure exit exists; (TYPECODE-ROOT) the wire type used in guards is computed on the typedef's root type; (CONTAINER-MISMATCH) container readers/decoders treat an element-type mismatch as 'absent' (value path) or skip exactly Length elements of the header's own type (stream path). (FAIL-CAUSES) the stream reader originates decode errors only for protocol reasons (negative length, unknown type code, byte outside its domain, envelope version/type) — in particular skipping has no nesting limit of its own, so unknown fields of any depth are skipped; (FULL-READ) the stream reader touches its wrapped io.Reader only through full-read primitives, so skipping an unknown field consumes exactly its width under any segmentation. (PRED-MODEL) the template predicate isNotNil, which these rules read as 'a default is declared', answers false only for a nil value. (POOL-SITES/RESET/PUT) pooled stream readers are completely re-initialised when borrowed or reset before they are returned — including the function bound for skipping — so skipping an unknown field cannot run on state left by an earlier decode. NOT decided: behaviour on concrete evolved schema pairs; nesting depth; that the skipped width per wire type is right (C03 SKIP=READ)."
+	l.Explanation = "Static clauses of C05, evaluated on every feasible shape class (abstract expansion) of the two struct decoder templates (FromWire, Decode): each field arm is selected by the field's own id AND by the wire type of its declared type; unknown ids and mistyped fields fall to a default that skips with the header's own type (stream path) or are ignored (value path); after every arm the field is ended and the next header read; a required field's presence flag is set only inside its guarded arm; after the loop an error is returned iff a required field without default is unset, an unset defaulted field is assigned its default, union arity is checked last, and no other failure exit exists; (TYPECODE-ROOT) the wire type used in guards is computed on the typedef's root type; (CONTAINER-MISMATCH) container readers/decoders treat an element-type mismatch as 'absent' (value path) or skip exactly Length elements of the header's own type (stream path). (FAIL-CAUSES) the stream reader originates decode errors only for protocol reasons (negative length, unknown type code, byte outside its domain, envelope version/type) — in particular skipping has no nesting limit of its own, so unknown fields of any depth are skipped; (FULL-READ) the stream reader touches its wrapped io.Reader only through full-read primitives, so skipping an unknown field consumes exactly its width under any segmentation. (PRED-MODEL) the template predicate isNotNil, which these rules read as 'a default is declared', answers false only for a nil value. (POOL-SITES/RESET/PUT) pooled stream readers are completely re-initialised when borrowed or reset before they are returned — including the function bound for skipping — so skipping an unknown field cannot run on state left by an earlier decode. (PTR-FRESH) the ptr helpers generated code uses for defaults return the address of a cell allocated by the call, never a shared variable. NOT decided: behaviour on concrete evolved schema pairs; nesting depth; that the skipped width per wire type is right (C03 SKIP=READ)."
 	l.RuleText = "one obligation per (template, shape class)"
 	l.Assumptions = []string{"decode/fromWire helper fragments assign exactly their target and err (C01 dispatch tables)"}
 	l.Exhaustive = true
@@ -191,6 +191,7 @@ func checkC05(c *core.Ctx, l *core.Ledger) {
 	checkFailCauses(c, l)
 	// a pooled reader carries nothing over from its previous user (the function bound to skip unknown fields included)
 	checkPools(c, l)
+	checkPtrFresh(c, l, "PTR-FRESH")
 	// the skip of an unknown or mistyped field consumes exactly its width only if the reader's primitives are full reads
 	checkStreamReaderFullRead(c, l)
 	checkNoRawRead(c, l, "FULL-READ", []string{"protocol/binary"})
